@@ -52,7 +52,7 @@ def variants():
     v += [("options", k) for k in ("dt_init_gt_dt_max", "terminal_psi_abs", "multiplier_low", "multiplier_high", "drag_zero", "drag_high", "step_size", "tolerance", "tolerance_zero", "step_size_negative", "multiplier_negative", "multiplier_one", "drag_negative",
                                    "solver_name", "gpu", "cupy_without_gpu")]
     v += [("empty_terminal", k) for k in ("inside", "outside")]
-    v += [("seed", k) for k in ("geometry", "layer", "units", "probe_points", "name", "no_terminals", "fewer_terminals", "extra_hole", "renamed_terminal")]
+    v += [("seed", k) for k in ("geometry", "film_scaled", "layer", "units", "probe_points", "name", "no_terminals", "fewer_terminals", "extra_hole", "renamed_terminal")]
     # the ill-posed state is reached on objects that were valid, and were used successfully, before
     v += [("history", k) for k in ("terminal_moved_inside", "terminal_moved_outside", "terminal_points_set", "terminals_reassigned", "options_mutated",
                                    "currents_dict_mutated", "layer_changed_after_seed", "terminal_moved_after_seed",
@@ -71,7 +71,7 @@ def cases(tier, seed):
     seeds = [0, 1] if quick else [0, 1, 2, 3, 4]
     for (cls, var), d, outp in itertools.product(variants(), devs, outputs):
         mags = MAGS if cls in ("currents_const", "currents_callable", "epsilon") or (cls, var) in (
-            ("options", "dt_init_gt_dt_max"), ("options", "terminal_psi_abs"), ("options", "multiplier_high"), ("options", "drag_high")) else [1.0]
+            ("seed", "film_scaled"), ("seed", "layer"), ("options", "dt_init_gt_dt_max"), ("options", "terminal_psi_abs"), ("options", "multiplier_high"), ("options", "drag_high")) else [1.0]
         sds = seeds if cls in ("currents_callable", "unknown_terminal") else [0]
         if cls in ("polygon", "device") and (d != devs[0] or outp != outputs[0]):
             continue
@@ -224,7 +224,9 @@ def run_case(case):
         # a legitimate solution of a *different* device, produced outside the sandbox snapshot
         other = {
             "geometry": lambda: zoo.device({"G1": "G3", "G3": "G1", "G4": "G1"}[case["dev"]]),
-            "layer": lambda: zoo.device(case["dev"], lam=2.0 * (1 + 1e-6)),
+            "layer": lambda: zoo.device(case["dev"], lam=2.0 * (1 + case["mag"] * (1e-6 if case["mag"] == 1.0 else 1.0))),
+            # the same mesh, the film outline scaled by the given relative amount
+            "film_scaled": lambda: _variant(dev, film_scale=1.0 + 0.5 * case["mag"]),
             "units": lambda: zoo.with_mesh_of(dev, case["dev"], "nm"),
             "probe_points": lambda: zoo.device(case["dev"], probes=False),
             "name": lambda: _renamed(dev),
@@ -374,7 +376,7 @@ def run_case(case):
     return res
 
 
-def _variant(dev, terminals=None, extra_hole=False, rename_terminal=False):
+def _variant(dev, terminals=None, extra_hole=False, rename_terminal=False, film_scale=None, hole_shift=0.0):
     """the same film / layer / mesh with a different set of holes or terminals"""
     import tdgl
     from tdgl.geometry import circle
@@ -382,10 +384,13 @@ def _variant(dev, terminals=None, extra_hole=False, rename_terminal=False):
     terms = [t.copy() for t in (dev.terminals if terminals is None else terminals)]
     holes = [h.copy() for h in dev.holes]
     if extra_hole:
-        holes = holes + [tdgl.Polygon("zz_extra", points=circle(0.15, points=10, center=(0.35, -0.45)))]
+        holes = holes + [tdgl.Polygon("zz_extra", points=circle(0.15, points=10, center=(0.35 + hole_shift, -0.45)))]
     if rename_terminal and terms:
         terms[-1] = terms[-1].set_name(terms[-1].name + "_x")
-    d = tdgl.Device(dev.name, layer=dev.layer.copy(), film=dev.film.copy(), holes=holes, terminals=terms, probe_points=dev.probe_points,
+    film = dev.film.copy()
+    if film_scale is not None:
+        film = tdgl.Polygon(film.name, points=np.asarray(film.points) * film_scale)
+    d = tdgl.Device(dev.name, layer=dev.layer.copy(), film=film, holes=holes, terminals=terms, probe_points=dev.probe_points,
                     length_units=dev.length_units)
     d.mesh = dev.mesh
     return d
